@@ -64,6 +64,31 @@ def jobs(tier):
     return out
 
 
+class _Captured(Exception):
+    pass
+
+
+def run_sampler(Kn, Ya, Xa, r):
+    """the sample the estimator works on, obtained through the estimator itself (whatever the internal signature of the sampling
+    helper is): the helper's return value is captured and the rest of the call is cut off"""
+    orig = Kn['stratified_subsampling']
+    box = {}
+
+    def rec(*a, **k):
+        box['res'] = orig(*a, **k)
+        raise _Captured()
+    Kn['stratified_subsampling'] = rec
+    try:
+        Kn['mutual_info_estimator_numba'](Ya, Xa, r, False)
+    except _Captured:
+        pass
+    finally:
+        Kn['stratified_subsampling'] = orig
+    if 'res' not in box:
+        raise symx.ShimUnsupported('the estimator did not go through stratified_subsampling for a ratio < 1')
+    return box['res']
+
+
 def sampled_terms(X, n, K, rk):
     """z3: sampled[i] per the statement: first q rows of each stratum, q = floor(floor(r*n)/#values); all rows when q == 0"""
     fss = int(F(rk, 8) * n)
@@ -110,8 +135,7 @@ def run_job(job):
 
     def body(ctx, out):
         Xa, Ya = KM.arrs(st['X'], st['Y'], K)
-        fv, fc = Kn['numba_unique'](Xa)
-        Ys, Xs = Kn['stratified_subsampling'](Ya, Xa, r, fv)
+        Ys, Xs = run_sampler(Kn, Ya, Xa, r)
         unsafe = bool(ctx.uninit)
         if cond == 'memsafe':
             out.never(ctx, z3.BoolVal(bool(ctx.uninit)), wit, 'a never-written cell of the index buffer is read')
@@ -184,8 +208,7 @@ def run_many(job):
         try:
             Xa = xnp.Arr(list(X), 'int32')
             Ya = xnp.Arr([SInt(v, 0, 1) for v in st['Y']], 'int32')
-            fv, fc = Kn['numba_unique'](Xa)
-            Ys, Xs = Kn['stratified_subsampling'](Ya, Xa, r, fv)
+            Ys, Xs = run_sampler(Kn, Ya, Xa, r)
         finally:
             xnp.UNSTABLE_TIES = False
         out.never(ctx, z3.BoolVal(bool(ctx.uninit)), wit, 'a never-written cell of the index buffer is read')
@@ -225,14 +248,22 @@ def poison(maxsize, val, ival):
     return s
 Y = np.array(%(Y)r, dtype=np.int32); X = np.array(%(X)r, dtype=np.int32)
 out = []
-fv, _ = K.numba_unique(X)
+fv, fc = K.numba_unique(X)
+def sample():
+    # the sampling helper is internal: its signature may differ between versions; the sample is extra evidence, the score is what counts
+    for args in ((Y, X, np.float32(%(r)r), fv), (Y, X, np.float32(%(r)r), fv, fc)):
+        try:
+            ys, xs = K.stratified_subsampling(*args)
+            return [ys.tolist(), xs.tolist()]
+        except TypeError:
+            continue
+    return None
 K.mutual_info_estimator_numba(Y, X, np.float32(1.0), %(corr)r)
-K.stratified_subsampling(Y, X, np.float32(%(r)r), fv)
+sample()
 poison(2, 0.0, 0)
 for rep in range(2):
     poison(%(size)d, %(val)r, %(ival)d)
-    ys, xs = K.stratified_subsampling(Y, X, np.float32(%(r)r), fv)
-    smp = [ys.tolist(), xs.tolist()]
+    smp = sample()
     poison(%(size)d, %(val)r, %(ival)d)
     out.append([float(K.mutual_info_estimator_numba(Y, X, np.float32(%(r)r), %(corr)r)), smp])
 print(json.dumps(out))
@@ -252,6 +283,36 @@ def poisoned_runs(Y, X, r, corr):
         else:
             res.append(('ok', json.loads(p.stdout.strip().splitlines()[-1])))
     return res
+
+
+def real_sample(K, Yn, Xn, r):
+    """(Ys, Xs) from the real sampling helper, or None when its (internal) signature is not one of the known ones"""
+    import numpy as np
+    fv, fc = K.numba_unique(Xn)
+    for args in ((Yn, Xn, np.float32(r), fv), (Yn, Xn, np.float32(r), fv, fc)):
+        try:
+            return K.stratified_subsampling(*args)
+        except TypeError:
+            continue
+    return None
+
+
+def sample_only_violation(X, Y, r):
+    """the statement's observable: the score must not move when feature values outside the specified sample rows change"""
+    idx = set(spec_rows(X, r))
+    base = KM.real_mi(Y, X, r, False)
+    vals = sorted(set(Y)) + [max(Y) + 1]
+    for i in range(len(X)):
+        if i in idx:
+            continue
+        for v in vals:
+            if v != Y[i]:
+                Y2 = list(Y)
+                Y2[i] = v
+                b = KM.real_mi(Y2, X, r, False)
+                if not KM.close(base, b):
+                    return f'r={r}, X={X}: score {base:.6f} for Y={Y} but {b:.6f} for Y={Y2}, which differs only in row {i}, outside the specified sample'
+    return None
 
 
 def replay(w):
@@ -299,8 +360,13 @@ def _replay(w):
         for X2, Y2 in tries:
             for rr in ((r,) if X2 is X else (r, 0.5)):
                 Xn, Yn = np.array(X2, dtype=np.int32), np.array(Y2, dtype=np.int32)
-                fv, _ = K.numba_unique(Xn)
-                Ys, Xs = K.stratified_subsampling(Yn, Xn, np.float32(rr), fv)
+                res = real_sample(K, Yn, Xn, rr)
+                if res is None:
+                    v = sample_only_violation(X2, Y2, rr) if len(X2) <= 64 else None
+                    if v:
+                        return {'reproduced': True, 'signature': 'C04:sample-spec-many-strata', 'what': v}
+                    continue
+                Ys, Xs = res
                 idx = spec_rows(X2, rr)
                 exp = ([Y2[i] for i in idx], [X2[i] for i in idx])
                 if (list(map(int, Ys)), list(map(int, Xs))) != exp:
@@ -310,8 +376,11 @@ def _replay(w):
         import numpy as np
         K = KM.real_kernel()
         Xn, Yn = np.array(X, dtype=np.int32), np.array(Y, dtype=np.int32)
-        fv, _ = K.numba_unique(Xn)
-        Ys, Xs = K.stratified_subsampling(Yn, Xn, np.float32(r), fv)
+        res = real_sample(K, Yn, Xn, r)
+        if res is None:
+            v = sample_only_violation(X, Y, r)
+            return {'reproduced': True, 'signature': 'C04:sample-spec', 'what': v} if v else {'reproduced': False, 'what': 'score insensitive to rows outside the specified sample'}
+        Ys, Xs = res
         q = int(int(r * len(X)) / len(set(X)))
         idx = list(range(len(X))) if q == 0 else [i for v in sorted(set(X)) for i in [j for j in range(len(X)) if X[j] == v][:q]]
         exp = ([Y[i] for i in idx], [X[i] for i in idx])
